@@ -133,6 +133,9 @@ MUTANTS = [
     ("projection_position_index", "bempp_cl/api/assembly/grid_function.py", "* function_data[:, index * npoints : (1 + index) * npoints]", "* function_data[:, element * npoints : (1 + element) * npoints]", 0, ["C13"]),
     ("map_to_full_grid_rows", "bempp_cl/api/space/space.py", "nshape_fun * _np.repeat(self._support_elements, nshape_fun)\n                    + _np.tile(_np.arange(nshape_fun), self._number_of_support_elements),", "nshape_fun * _np.repeat(_np.arange(self._number_of_support_elements), nshape_fun)\n                    + _np.tile(_np.arange(nshape_fun), self._number_of_support_elements),", 0, ["C02", "C04", "C09"]),
     ("rwg_sign_rule", "bempp_cl/api/space/maxwell_spaces.py", "1 if element_index == min(supported_neighbors) else -1", "1 if element_index == min(supported_neighbors) else 1", 0, ["C03", "C09"]),
+    ("snc_ignores_swapped_normals", "bempp_cl/api/space/maxwell_spaces.py", "support, normal_multipliers = _process_segments(grid, support_elements, segments, swapped_normals)", "support, normal_multipliers = _process_segments(grid, support_elements, segments, None)", 1, ["C09"]),
+    ("rbc_with_rwg_evaluator", "bempp_cl/api/space/maxwell_spaces.py", ".set_numba_evaluator(_numba_snc0_evaluate)", ".set_numba_evaluator(_numba_rwg0_evaluate)", 2, ["C09"]),
+    ("p1_space_multipliers_from_support_slot", "bempp_cl/api/space/scalar_spaces.py", "        .set_local_multipliers(local_multipliers)\n        .set_barycentric_representation(p1_barycentric_continuous_function_space)", "        .set_local_multipliers(support)\n        .set_barycentric_representation(p1_barycentric_continuous_function_space)", 0, ["C09"]),
     ("p1_neighbour_vertex_position", "bempp_cl/api/space/scalar_spaces.py", "other_local_index = find_index(grid_data.elements[:, en], vertex)", "other_local_index = find_index(grid_data.elements[:, element_index], vertex)", 0, ["C09"]),
     ("rwg_boundary_dof_counter_shared", "bempp_cl/api/space/maxwell_spaces.py", "                        edge_dofs[edge_index] = dof_count\n                        dof_count += 1\n                    has_dof = True\n                    if not truncate_at_segment_edge:", "                        edge_dofs[edge_index] = dof_count\n                    has_dof = True\n                    if not truncate_at_segment_edge:", 0, ["C09"]),
     ("rwg_map_wrong_edge", "bempp_cl/api/space/maxwell_spaces.py", "            edge_index = element_edges[local_index, element_index]\n            if edge_dofs[edge_index] != -1:\n                dofmap[local_index] = edge_dofs[edge_index]", "            edge_index = element_edges[local_index, element_index]\n            if edge_dofs[edge_index] != -1:\n                dofmap[local_index] = edge_dofs[element_edges[(local_index + 1) % 3, element_index]]", 0, ["C09"]),
